@@ -192,7 +192,9 @@ def run_check(prop, tier, seed, replay_path=None, jobs=None):
                 errors.append(err)
     else:
         ctx = multiprocessing.get_context('fork')
-        with ctx.Pool(min(jobs, len(shards)), initializer=_worker_init, initargs=(prop,)) as pool:
+        # maxtasksperchild=1: every shard runs in a child freshly forked from this (library-pristine) process, so a shard's
+        # result cannot depend on which shards the scheduler happened to run before it in the same worker
+        with ctx.Pool(min(jobs, len(shards)), initializer=_worker_init, initargs=(prop,), maxtasksperchild=1) as pool:
             for idx, res, err in pool.imap_unordered(_worker_run, list(enumerate(shards)), chunksize=1):
                 results[idx] = res
                 if err:
